@@ -67,7 +67,7 @@ GETATTRS = {'none': 'pass',
 WHERE = {'own': 'Target = Proto\n', 'base': 'class Target(Proto):\n    %(slots)s\n',
          'dynamic': 'Target = type("Target", (Proto,), {%(dynslots)s})\n'}
 ATTRS = ['prop', 'prop_ann', 'dd', 'deld', 'both', 'nd']
-ROOTS = ['o', "box['k'][0]", 'box["ns"].inner']
+ROOTS = ['o', "box['k'][0]", 'box["ns"].inner', "box['sn'].o"]
 METHODS = ['complete', 'infer', 'goto', 'help', 'get_signatures']
 MORE_METHODS = ['get_references', 'get_context', 'get_names']
 
@@ -107,13 +107,14 @@ def build(shape, idx):
         o.plain, o.num = Val(), 1
     holder = type('Dyn', (), {})()
     holder.inner, holder.vals, holder.cls = o, [Val(), {'z': (Val(3), True)}], T
-    namespaces = [{'o': o, 'T': T, 'func': m['func']}, {'box': {'k': [o, (o, 2)], 'ns': holder}}]
+    sn = types.SimpleNamespace(o=o, vals=(Val(), [holder]))
+    namespaces = [{'o': o, 'T': T, 'func': m['func']}, {'box': {'k': [o, (o, 2)], 'ns': holder, 'sn': sn}}]
     del m['CALLS'][:], m['GETATTR'][:]
     return m, namespaces, o, T
 
 
 def codes(idx, seed):
-    """safe-mode query texts (cursor at the end); the path to the object rotates over three equivalent routes"""
+    """safe-mode query texts (cursor at the end); the path to the object rotates over four equivalent routes"""
     inst = ['P.'] + [t % a for a in ATTRS for t in ('P.%s', 'P.%s.', 'P.%s.n')] + [
         'P[0]', 'P[0].', "P['k'].n", 'P[0:1].', 'P()', 'P().', 'P(', 'for q in P:\n    q.', 'a, *b = P\na.',
         '[q for q in P][0].', 'list(P)[0].', 'next(iter(P)).', 'next(P).', 'len(P).', 'bool(P).', '(not P).',
@@ -122,7 +123,7 @@ def codes(idx, seed):
         'P.__getitem__(0).', 'P.plain.', 'P.plain.n']
     cls = ['T.'] + [t % a for a in ATTRS + ['mprop', 'mnd', 'mdd'] for t in ('T.%s', 'T.%s.')] + [
         'T().', 'T()[0].', 'T().prop.', 'T().dd', 'T(', 'T[0].', 'for q in T:\n    q.', 'box["ns"].cls.mnd.', 'T.mro().']
-    return [c.replace('P', ROOTS[(i + idx + seed) % 3]) for i, c in enumerate(inst)] + cls
+    return [c.replace('P', ROOTS[(i + idx + seed) % len(ROOTS)]) for i, c in enumerate(inst)] + cls
 
 
 def plain_paths(namespaces, limit):
@@ -166,6 +167,11 @@ def check_shape(arg):
     violations, evaluations, nontrivial = [], 0, 0
     old = jedi.settings.allow_unsafe_interpreter_executions
 
+    def ran(kind):
+        return 'safe mode: a query ran a user-defined ' + kind + (
+            ' of an instance of a%s class' % {'object': ' plain'}.get(shape['base'], ' %s sub' % shape['base'])
+            if kind.startswith('__') else '')
+
     def add(label, code, mode, observed):
         violations.append({'label': label, 'input': 'shape=%r mode=%s code=%r' % (shape, mode, code),
                            'observed': observed[:600]})
@@ -183,29 +189,32 @@ def check_shape(arg):
                     evaluations += 1
                     nontrivial += bool(res)
                     for kind in sorted(set(calls)):
-                        add('safe mode: a query ran a user-defined ' + kind, code, mode + ' method=' + meth,
-                            'calls: %r' % calls[:20])
-            for code, obj in [(r, o) for r in ROOTS] + [('T', T), ('box["ns"].cls', T)]:
+                        add(ran(kind), code, mode + ' method=' + meth, 'calls: %r' % calls[:20])
+            for code, obj in [(r, o) for r in ROOTS] + [('T', T), ('box["ns"].cls', T), ('box["ns"]', namespaces[1]['box']['ns']),
+                              ("box['sn']", namespaces[1]['box']['sn'])]:
                 expected = set(dir(obj))
                 del calls[:]
                 names = {c.name for c in jedi.Interpreter(code + '.', namespaces, project=project).complete()}
                 evaluations += 1
                 nontrivial += 1
                 if mode == 'safe' and calls:
-                    add('safe mode: a query ran a user-defined ' + calls[0], code + '.', mode, 'calls: %r' % calls[:20])
+                    add(ran(calls[0]), code + '.', mode, 'calls: %r' % calls[:20])
                 if expected - names:
                     add("names after 'obj.' do not include everything in dir(obj)", code + '.', mode,
                         'missing: %r' % sorted(expected - names))
             for code, obj in plain_paths(namespaces, 30 if tier == 'quick' else 80):
-                want = (obj.__name__, 'class') if isinstance(obj, type) else (obj.__name__, 'function') \
-                    if isinstance(obj, types.FunctionType) else (type(obj).__name__, 'instance')
+                # a stored class / function is identified by its own name; for a class with a custom metaclass the
+                # statement's "class of the object" is ambiguous, so the metaclass name is accepted as well
+                want = [(obj.__name__, 'class'), (type(obj).__name__, 'class')] if isinstance(obj, type) else \
+                    [(obj.__name__, 'function')] if isinstance(obj, types.FunctionType) else \
+                    [(type(obj).__name__, 'instance')]
                 del calls[:]
                 got = sorted({(d.name, d.type) for d in jedi.Interpreter(code, namespaces, project=project).infer()})
                 evaluations += 1
                 nontrivial += 1
                 if mode == 'safe' and calls:
-                    add('safe mode: a query ran a user-defined ' + calls[0], code, mode, 'calls: %r' % calls[:20])
-                if got != [want]:
+                    add(ran(calls[0]), code, mode, 'calls: %r' % calls[:20])
+                if len(got) != 1 or got[0] not in want:
                     add('infer on a plain attribute / builtin container path does not report the stored object',
                         code, mode, 'expected %r, got %r' % (want, got))
     finally:
@@ -216,7 +225,7 @@ def check_shape(arg):
 def run(repo, seed, tier):
     import jedi  # noqa: F401  (imported before the fork so that every worker uses the tree under test)
     all_shapes = list(enumerate(shapes()))
-    chosen = [(i, s, seed, tier) for i, s in all_shapes if tier == 'thorough' or (i + seed) % 4 == 0]
+    chosen = [(i, s, seed, tier) for i, s in all_shapes if tier == 'thorough' or (i + seed) % 2 == 0]
     with mp.get_context('fork').Pool(min(16, os.cpu_count() or 4)) as pool:
         results = pool.map(check_shape, chosen, chunksize=1)
     violations = [v for r in results for v in r[2]]
@@ -234,8 +243,8 @@ def run(repo, seed, tier):
                     'class has two properties (one with an unresolvable annotation), four descriptor kinds, a metaclass '
                     'with a property and two descriptors, and counting __getitem__/__iter__/__next__/__call__/__len__/'
                     '__bool__; the object sits in two namespaces, in nested dict/list/tuple and in an instance of a '
-                    'type()-created class. Safe mode: %d query texts x %s, counters must stay empty. Both modes: '
-                    "completion after 'obj.' (3 routes + 2 class routes) must cover dir(obj); infer on <= %d plain "
+                    'type()-created class and in a SimpleNamespace. Safe mode: %d query texts x %s, counters must stay empty. Both modes: '
+                    "completion after 'obj.' (4 routes to the object, 2 to the class, the two holders) must cover dir(obj); infer on <= %d plain "
                     'attribute / builtin-container paths (depth <= 4) must name type(real object). distinct_nontrivial '
                     '= evaluations with a non-empty answer.'
                     % (len(chosen), len(all_shapes), ncodes, '/'.join(METHODS + (MORE_METHODS if tier == 'thorough' else [])),
